@@ -2,7 +2,9 @@ package bloomfilter
 
 import (
 	"encoding/binary"
+	"fmt"
 	"hash/fnv"
+	"io"
 	"math"
 	"os"
 	"sync"
@@ -143,7 +145,7 @@ func LoadBloomFilter(filePath string) (*BloomFilter, error) {
 
 	// Read header: size, hash functions, expected elements, insertions
 	header := make([]byte, 32)
-	if _, err := file.Read(header); err != nil {
+	if _, err := io.ReadFull(file, header); err != nil {
 		return nil, err
 	}
 
@@ -152,9 +154,21 @@ func LoadBloomFilter(filePath string) (*BloomFilter, error) {
 	expectedN := binary.LittleEndian.Uint64(header[16:24])
 	insertions := binary.LittleEndian.Uint64(header[24:32])
 
+	// The header is not covered by any checksum: never allocate or loop on
+	// its word alone. The bit array must be exactly the rest of the file.
+	stat, err := file.Stat()
+	if err != nil {
+		return nil, err
+	}
+	if stat.Size() <= 32 || size == 0 || hashFuncs == 0 || hashFuncs > 64 ||
+		size > 8*uint64(stat.Size()-32) || (size+7)/8 != uint64(stat.Size()-32) {
+		return nil, fmt.Errorf("bloom filter header (size %d bits, %d hash functions) does not match its length of %d bytes",
+			size, hashFuncs, stat.Size())
+	}
+
 	// Read bit array
 	bits := make([]byte, (size+7)/8)
-	if _, err := file.Read(bits); err != nil {
+	if _, err := io.ReadFull(file, bits); err != nil {
 		return nil, err
 	}
 
